@@ -437,6 +437,7 @@ static void run_forked(Node* root) {
 
 /* ---- main ------------------------------------------------------------------------------ */
 int main(int argc, char** argv) {
+  setvbuf(stdout, NULL, _IOLBF, 0);    /* a stuck or killed case still shows how far it got */
   K[0] = TypeError; K[1] = KeyError; K[2] = ValueError; K[3] = IOError; K[4] = UserExc;
   if (EXIT_FAILURE isnt 1) { harness_bug("EXIT_FAILURE is not 1 on this platform"); }
   while (true) {
